@@ -85,4 +85,96 @@ def LocalDB.list (l : LocalDB) (pfx key : Bytes) (count dir : Nat) : Option (Lis
 def LocalDB.prefixCount (l : LocalDB) (pfx : Bytes) : Option Nat :=
   countMerged l.layers pfx
 
+/-! ### operations -/
+
+inductive Op where
+  | begin | commit | rollback
+  | set (k v : Bytes)
+  | get (k : Bytes)
+  | list (pfx key : Bytes) (count dir : Nat)
+  | count (pfx : Bytes)
+  deriving Repr
+
+inductive Out where
+  | ok
+  | val (v : Option Bytes)
+  | items (xs : Option (List Bytes))
+  | num (n : Option Nat)
+  deriving Repr, DecidableEq
+
+def LocalDB.step (l : LocalDB) : Op → LocalDB × Out
+  | .begin => (l.begin, .ok)
+  | .commit => (l.commit, .ok)
+  | .rollback => (l.rollback, .ok)
+  | .set k v => (l.set k v, .ok)
+  | .get k => ((l.get k).1, .val (l.get k).2)
+  | .list p k c d => (l, .items (l.list p k c d))
+  | .count p => (l, .num (l.prefixCount p))
+
+def LocalDB.run (l : LocalDB) : List Op → LocalDB × List Out
+  | [] => (l, [])
+  | op :: ops =>
+    let r := l.step op
+    let rs := LocalDB.run r.1 ops
+    (rs.1, r.2 :: rs.2)
+
+/-! ### specification: a key/value map with an optional open transaction -/
+
+structure Spec where
+  /-- the base database (never written). -/
+  base : Map
+  /-- committed writes (an empty value hides the key). -/
+  overlay : Map
+  /-- writes of the open transaction, if any. -/
+  tx : Option Map
+  deriving Repr
+
+def Spec.new (base : Map) : Spec := { base := base, overlay := [], tx := none }
+
+/-- layers visible to a read, newest first. -/
+def Spec.view (s : Spec) : List Map :=
+  (match s.tx with
+   | some t => [t]
+   | none => []) ++ [s.overlay, s.base]
+
+/-- newest write visible from the open transaction, then the overlay, then the base. -/
+def Spec.rawGet (s : Spec) (k : Bytes) : Option Bytes := s.view.findSome? (fun m => C06.get m k)
+
+/-- a read: an empty value means "deleted". -/
+def Spec.get (s : Spec) (k : Bytes) : Option Bytes :=
+  match s.rawGet k with
+  | some v => if isDeleted v then none else some v
+  | none => none
+
+def Spec.set (s : Spec) (k v : Bytes) : Spec :=
+  match s.tx with
+  | some t => { s with tx := some (insert t k v) }
+  | none => { s with overlay := insert s.overlay k v }
+
+/-- `Begin` (inside an open transaction: its writes are discarded — the code's behaviour). -/
+def Spec.begin (s : Spec) : Spec := { s with tx := some [] }
+
+def Spec.rollback (s : Spec) : Spec := { s with tx := none }
+
+def Spec.commit (s : Spec) : Spec :=
+  match s.tx with
+  | none => s
+  | some t => { s with overlay := t.foldl (fun (c : Map) (e : Entry) => insert c e.1 e.2) s.overlay, tx := none }
+
+def Spec.step (s : Spec) : Op → Spec
+  | .begin => s.begin
+  | .commit => s.commit
+  | .rollback => s.rollback
+  | .set k v => s.set k v
+  | .get _ => s
+  | .list _ _ _ _ => s
+  | .count _ => s
+
+def Spec.run (s : Spec) (ops : List Op) : Spec := ops.foldl Spec.step s
+
+/-- operations that neither open nor close a transaction. -/
+def Op.isData : Op → Bool
+  | .begin | .commit | .rollback => false
+  | _ => true
+
 end C08
